@@ -420,6 +420,11 @@ def case_term(case):
     if k == 'layout':
         return (f'({ct.lst(item_term(i) for i in case["items"])}, {ct.boolean(case["fin"])}, '
                 f'{text_term(case["text"])}, {res_term(case["result"])})')
+    if k == 'dispatch':
+        rows = ct.lst(f'({text_term(a)}, {b}, {c}, {ct.boolean(d)})' for a, b, c, d in case['table'])
+        return f'({rows}, {text_term(case["vdd"])}, {text_term(case["buff"])})'
+    if k == 'fgate':
+        return f'({text_term(case["label"])}, {case["type"]}, {labels_term(case["ops"])}, {text_term(case["text"])})'
     if k == 'okb':
         return f'({circuit_term(case["circuit"])}, {ct.boolean(case["result"])})'
     if k == 'eq':
@@ -427,11 +432,38 @@ def case_term(case):
     raise ValueError(k)
 
 
+def live_dispatch():
+    """the dispatch table as the running parser has it"""
+    import inspect
+    from cirbo.core.parser import bench
+    rows = []
+    for key, h in bench.BenchToCircuit()._processings.items():
+        params = list(inspect.signature(h).parameters.values())
+        named = [q for q in params[1:] if q.kind == q.POSITIONAL_OR_KEYWORD]
+        var = any(q.kind == q.VAR_POSITIONAL for q in params)
+        p = bench.BenchToCircuit()
+        p._processings[key]('o', *(['a'] * len(named)))
+        rows.append((key, p._circuit.get_gate('o').gate_type.name, len(named), var))
+    return {'kind': 'dispatch', 'table': rows, 'vdd': bench.VDD_NAME, 'buff': bench.BUFF_NAME}
+
+
+def live_format_gate():
+    from cirbo.core.circuit import gate
+    out = []
+    for t in ct.GTYPES:
+        for l, ops in (('g', []), ('input_x', ['a']), ('n.1', ['a', 'b#', 'c[2]'])):
+            out.append({'kind': 'fgate', 'label': l, 'type': t, 'ops': ops,
+                        'text': gate.Gate(l, getattr(gate, t), tuple(ops)).format_gate()})
+    return out
+
+
 CHECK = {'format': ('check_format_case', 'circuit * string'),
          'parse': ('check_parse_case', 'string * bool * res circuit'),
          'layout': ('check_layout_case', 'list item * bool * string * res circuit'),
          'eq': ('check_eq_case', 'circuit * circuit * bool'),
-         'okb': ('check_okb_case', 'circuit * bool')}
+         'okb': ('check_okb_case', 'circuit * bool'),
+         'dispatch': ('check_dispatch_case', 'list (string * gtype * nat * bool) * string * string'),
+         'fgate': ('check_format_gate_case', 'string * gtype * list label * string')}
 
 
 # ------------------------------------------------------------------ the direct oracle
